@@ -104,22 +104,26 @@ func main() {
 	r.Assume("steady state: initial content was written and mirrored by a previous complete sync step; all remote versions are older than anything the application writes, so any change of an application-written key is a violation",
 		"goroutine scheduling follows a fixed policy (background downloads run to completion before the loop continues); the explored choices are the environment's answers: application commits at every loop hook, straddling application transactions, remote snapshot arrival")
 	bound := ev.Pick(r, 2, 3)
+	type part struct {
+		name  string
+		bound int
+		cfg   loopworld.Cfg
+	}
+	var small, large []part
 	for _, native := range []bool{true, false} {
 		name := map[bool]string{true: "native", false: "shadow"}[native]
-		xrun.Explore(r, "loop-"+name, xrun.Opts{Kind: "x", Bound: bound, Budget: 30, Recycle: 4,
-			Param: loopworld.Cfg{Native: native, Remote2: true, NoopRemote: true, Straddle: true, LoopFirst: r.Thorough(), MaxVisits: 2}})
-		if r.Expired() {
-			continue
-		}
+		large = append(large, part{"loop-" + name, bound, loopworld.Cfg{Native: native, Remote2: true, NoopRemote: true, Straddle: true, LoopFirst: r.Thorough(), MaxVisits: 2}})
 		// with the tomb sweeper enabled: stale remote deletion markers meet live local data
-		xrun.Explore(r, "loop-"+name+"-sweeper-enabled", xrun.Opts{Kind: "x", Bound: ev.Pick(r, 2, 3), Budget: 30, Recycle: 4,
-			Param: loopworld.Cfg{Native: native, Remote2: true, Sweeper: true, MaxVisits: 1, AppOps: []string{"put-a", "put-b", "del-a"}}})
-		if r.Expired() {
-			continue
-		}
+		small = append(small, part{"loop-" + name + "-sweeper-enabled", bound, loopworld.Cfg{Native: native, Remote2: true, Sweeper: true, MaxVisits: 1, AppOps: []string{"put-a", "put-b", "del-a"}}})
 		// two remote instances publish at once: several merges in one pass of the loop, application commits in between
-		xrun.Explore(r, "loop-"+name+"-two-remotes", xrun.Opts{Kind: "x", Bound: bound, Budget: 30, Recycle: 4,
-			Param: loopworld.Cfg{Native: native, Remote2: true, TwoRemotes: true, MaxVisits: 1, AppOps: []string{"put-b", "del-a", "newdbi"}}})
+		small = append(small, part{"loop-" + name + "-two-remotes", bound, loopworld.Cfg{Native: native, Remote2: true, TwoRemotes: true, MaxVisits: 1, AppOps: []string{"put-b", "del-a", "newdbi"}}})
+	}
+	// cheapest parts first; every part may use an equal share of what is left of the budget
+	parts := append(small, large...)
+	for i, p := range parts {
+		restore := r.SubBudget(r.Remaining() / time.Duration(len(parts)-i))
+		xrun.Explore(r, p.name, xrun.Opts{Kind: "x", Bound: p.bound, Budget: 30, Recycle: 4, Param: p.cfg})
+		restore()
 	}
 	r.Finish()
 }
